@@ -28,9 +28,12 @@ def gap(rnd, final=False):
             items.append(b"//" + body + b"\n")
         else:
             body = bytes(rnd.choice(b'ab "\\/*\n{}[]:,') for _ in range(rnd.randint(0, 8)))
-            body = body.replace(b"*/", b"* /")
-            if body.endswith(b"*"):
-                body += b" "
+            if rnd.random() < 0.3:
+                # runs of stars next to the delimiters: /***/, /** doc **/
+                body = b"*" * rnd.randint(0, 3) + body + b"*" * rnd.randint(0, 4)
+            # the body must not contain the closer; it may well end in stars (the comment ends at the FIRST "*/")
+            while b"*/" in body:
+                body = body.replace(b"*/", b"* /")
             items.append(b"/*" + body + b"*/")
     if final and rnd.random() < 0.2:
         items.append(b"// trailing comment without newline")
